@@ -3,6 +3,10 @@
 import json, subprocess
 
 CHECKS = {
+ "C08": dict(category="model_checking", design="§3 C08",
+   text="Schedules = iteration orders of every Go map the code ranges over. A build-time rewriter (go/packages, -overlay; /repo untouched; regenerated from the working tree on every run so that new map ranges are instrumented automatically) routes every `for .. range <map>` through a seam; the explorer enumerates all n! orders of ranges over <= 4 (thorough 5) keys and 8 structured orders of larger tables with <= 2 (3) deviations per execution, over a program family built so that every map-backed collection holds several entries, and requires identical parse errors, Format text, platform trace and result on every schedule; plus in-process histories (A then B vs B) and repeated fresh processes of the uninstrumented binary.",
+   note="Dependence on addresses or timing that does not flow through a map range is outside the seam (none found by reading).",
+   technique="stateless exploration of map-iteration schedules through an injected seam, deviation-bounded, on the real code"),
  "C02": dict(category="exploration", design="§3 C02",
    text="Every program the REAL parser accepts out of: all built-ins x all tuples of argument value classes (incl. 2^31, 2^63, 1e300, NaN, +-Inf, non-ASCII/format strings, empty/nested/mixed composites, each also inside an any), all untyped expression trees with <= 1 (quick) / 2 (thorough) operators in 9 statement contexts, the C04 typing matrix, and structural programs (recursion, cyclic values, shadowing in loops, impossible repetitions) is run under a recording platform. The run may end only by completion, documented Evy panic, exit, failed test or step budget - never an internal error, Go panic, process death (worker journal) or hang (watchdog); typeof never reports any/none.",
    note="Faithful execution of huge legal requests is excluded from the alphabet. Three recorded findings: self-containing []any/{}any values overflow the Go stack when printed or compared.",
